@@ -25,9 +25,9 @@ EXTENDS Secrecy, Json
 
 TraceLog == ndJsonDeserialize("trace.ndjson")
 
-VARIABLES l, alarms, scen, cls, um, F, seen, fseen
+VARIABLES l, alarms, scen, cls, um, F, seen, fseen, cases
 
-tvars == <<node, fs, io, umask, last, l, alarms, scen, cls, um, F, seen, fseen>>
+tvars == <<node, fs, io, umask, last, l, alarms, scen, cls, um, F, seen, fseen, cases>>
 
 EmptyFS == [k \in FileKinds |-> NoFile]
 
@@ -42,7 +42,7 @@ Access(mode) == IF Bit(mode, 4) = 1 \/ Bit(mode, 2) = 1 THEN "world-accessible" 
 
 TraceInit == /\ Init
              /\ l = 1 /\ alarms = {} /\ scen = "none" /\ cls = "none" /\ um = 18
-             /\ F = EmptyFS /\ seen = {} /\ fseen = {}
+             /\ F = EmptyFS /\ seen = {} /\ fseen = {} /\ cases = {}
 
 StepReset(e) ==
   /\ e.ev = "Reset"
@@ -82,6 +82,7 @@ StepEmit(e) ==
                  THEN {Alarm("ScannerBlind", e, e.key, "the scan does not find the deal share a justification publishes")} ELSE {}
      IN alarms' = alarms \cup A1 \cup A2 \cup A3 \cup A4
   /\ seen' = seen \cup {e.key}
+  /\ cases' = IF "case" \in DOMAIN e THEN cases \cup {e.key \o " " \o e.case} ELSE cases      \* the refusal path that was driven
   /\ UNCHANGED <<scen, cls, um, F, fseen>>
 
 StepFile(e) ==
@@ -134,6 +135,7 @@ TraceNext ==
   /\ LET e == TraceLog[l] IN
        StepReset(e) \/ StepStep(e) \/ StepEmit(e) \/ StepFile(e) \/ StepSelfTest(e) \/ StepDeals(e) \/ StepAbort(e) \/ StepOther(e)
   /\ l' = l + 1
+  /\ (IF TraceLog[l].ev = "Emit" THEN TRUE ELSE UNCHANGED cases)
   /\ UNCHANGED <<node, fs, io, umask, last>>
 
 TraceSpec == TraceInit /\ [][TraceNext]_tvars
@@ -141,6 +143,6 @@ TraceSpec == TraceInit /\ [][TraceNext]_tvars
 AtEnd == l = Len(TraceLog) + 1 =>
            /\ PrintT(<<"VP", "ALARMS", ToJson(alarms)>>)
            /\ PrintT(<<"VP", "DONE", ToJson([lines |-> Len(TraceLog), emitters |-> seen, files |-> fseen,
-                                             unexercised |-> Inventory \ seen, inventory |-> Cardinality(Inventory),
+                                             unexercised |-> Inventory \ seen, inventory |-> Cardinality(Inventory), refusals |-> cases,
                                              peerfacing_unexercised |-> PeerFacing \ seen])>>)
 =============================================================================
